@@ -199,7 +199,12 @@ def delete(rng):
     g.emit("task deleter")
     g.emit("sleep 1000000")
     g.pause()
-    g.emit("dsub " + hx(s))
+    if rng.chance(1, 4):
+        # the deleting caller gives up part-way; a retry follows
+        g.emit("drop%d dsub %s" % (rng.range(0, 7), hx(s)))
+        g.emit("dsub " + hx(s))
+    else:
+        g.emit("dsub " + hx(s))
     g.emit("go")
     g.subs = {}
     g.emit("gsub " + hx(s))
@@ -494,7 +499,43 @@ def pubdel(rng):
     return g.lines
 
 
-PROFILES = {"wakecancel": wakecancel, "pubdel": pubdel, "namerace": namerace, "race": race, "swallow": swallow, "mix": mix, "wake": wake, "delete": delete, "burst": burst, "cancel": cancel}
+def multicreate(rng):
+    """C11 / C13: several DIFFERENT subscriptions created on one topic at the same time (their attach
+    requests may reach the topic out of id order), then deleted one by one; after every step the
+    topic's list must be exactly the live subscriptions."""
+    g = ConcGen(rng, caps=(1, 2, 16))
+    t = tname("p", "t0")
+    g.emit("ctopic " + hx(t))
+    g.topics = [t]
+    names = [sname("p", "m%d" % i) for i in range(rng.range(2, 5))]
+    for i, n in enumerate(names):
+        g.emit("task c%d" % i)
+        if rng.chance(2, 3):
+            g.emit("yield %d" % rng.range(0, 6))
+        g.emit("csub %s %s 10 -" % (hx(n), hx(t)))
+    g.emit("go")
+    g.emit("wsubs %s 1000" % hx(b"projects/p"))
+    g.emit("wtsubs %s 1000" % hx(t))
+    order = list(names)
+    if rng.chance(2, 3):
+        order.reverse()
+    if rng.chance(1, 3):
+        order = order[1:] + order[:1]
+    for n in order[:rng.range(1, len(order))]:
+        g.emit("dsub " + hx(n))
+        g.emit("wsubs %s 1000" % hx(b"projects/p"))
+        g.emit("wtsubs %s 1000" % hx(t))
+    if rng.chance(1, 2):
+        g.emit("csub %s %s 10 -" % (hx(order[0]), hx(t)))
+        g.emit("wsubs %s 1000" % hx(b"projects/p"))
+        g.emit("wtsubs %s 1000" % hx(t))
+    g.emit("pub %s %s" % (hx(t), _payload(rng, "probe")))
+    for n in names:
+        g.emit("pull %s 1000 1" % hx(n))
+    return g.lines
+
+
+PROFILES = {"multicreate": multicreate, "wakecancel": wakecancel, "pubdel": pubdel, "namerace": namerace, "race": race, "swallow": swallow, "mix": mix, "wake": wake, "delete": delete, "burst": burst, "cancel": cancel}
 
 
 def cases(rng, profile, n):
